@@ -22,6 +22,7 @@ import (
 	"bytes"
 	"context"
 	"crypto"
+	"crypto/ecdsa"
 	"errors"
 	"github.com/lestrrat-go/jwx/v2/jwk"
 	"github.com/lestrrat-go/jwx/v2/jwt"
@@ -184,6 +185,15 @@ func (j jar) validate(ctx context.Context, rawToken string, clientId string) (oa
 }
 
 func compareThumbprint(configurationKey jwk.Key, publicKey crypto.PublicKey) error {
+	// The configuration's key set comes from a remote party. Calculating the thumbprint of an EC key whose coordinates do not fit
+	// its curve makes the JOSE library panic, so check it first.
+	var rawConfigurationKey interface{}
+	if err := configurationKey.Raw(&rawConfigurationKey); err != nil {
+		return err
+	}
+	if ecKey, ok := rawConfigurationKey.(*ecdsa.PublicKey); ok && !ecKey.Curve.IsOnCurve(ecKey.X, ecKey.Y) {
+		return errors.New("invalid EC key: point is not on its curve")
+	}
 	thumbprintLeft, err := configurationKey.Thumbprint(crypto.SHA256)
 	if err != nil {
 		return err
